@@ -9,13 +9,42 @@ Implicit Types l : list A.
 Definition zth l (i : Z) : option A :=
   if i <? 0 then None else nth_error l (Z.to_nat i).
 
-(* l[off : off+n] for off, n >= 0 (negative arguments behave as 0) *)
-Definition slice l (off n : Z) : list A :=
+(* l[off : off+n] for off, n >= 0 (negative arguments behave as 0).
+   slice0 / drop0 / take0 are the plain definitions used in proofs; slice / drop / take first clamp their integer
+   arguments to the length of the list, so that the extracted code never converts a huge (data-dependent) integer
+   to a unary natural number.  They are equal (slice_raw, drop_raw, take_raw). *)
+Definition slice0 l (off n : Z) : list A :=
   firstn (Z.to_nat n) (skipn (Z.to_nat off) l).
+Definition drop0 l (off : Z) : list A := skipn (Z.to_nat off) l.
+Definition take0 l (n : Z) : list A := firstn (Z.to_nat n) l.
 
-(* everything from off *)
-Definition drop l (off : Z) : list A := skipn (Z.to_nat off) l.
-Definition take l (n : Z) : list A := firstn (Z.to_nat n) l.
+Definition slice l (off n : Z) : list A := slice0 l (Z.min off (len l)) (Z.min n (len l)).
+Definition drop l (off : Z) : list A := drop0 l (Z.min off (len l)).
+Definition take l (n : Z) : list A := take0 l (Z.min n (len l)).
+
+Lemma drop_raw l off : drop l off = drop0 l off.
+Proof.
+  unfold drop, drop0. destruct (Z.le_gt_cases (len l) off).
+  - rewrite Z.min_r by lia. unfold len in *. rewrite !skipn_all2 by lia. reflexivity.
+  - now rewrite Z.min_l by lia.
+Qed.
+
+Lemma take_raw l n : take l n = take0 l n.
+Proof.
+  unfold take, take0. destruct (Z.le_gt_cases (len l) n).
+  - rewrite Z.min_r by lia. unfold len in *. rewrite !firstn_all2 by lia. reflexivity.
+  - now rewrite Z.min_l by lia.
+Qed.
+
+Lemma slice_raw l off n : slice l off n = slice0 l off n.
+Proof.
+  unfold slice, slice0.
+  replace (skipn (Z.to_nat (Z.min off (len l))) l) with (skipn (Z.to_nat off) l)
+    by (pose proof (drop_raw l off) as D; unfold drop, drop0 in D; now rewrite D).
+  destruct (Z.le_gt_cases (len l) n).
+  - rewrite Z.min_r by lia. unfold len in *. rewrite !firstn_all2 by (rewrite skipn_length; lia). reflexivity.
+  - now rewrite Z.min_l by lia.
+Qed.
 
 Lemma list_ext l1 l2 : (forall i, nth_error l1 i = nth_error l2 i) -> l1 = l2.
 Proof.
@@ -66,37 +95,37 @@ Lemma nth_error_slice l off n i :
   nth_error (slice l off n) i =
   if (Z.of_nat i <? n) then nth_error l (Z.to_nat off + i) else None.
 Proof.
-  intros Ho Hn. unfold slice. rewrite nth_error_firstn, nth_error_skipn.
+  intros Ho Hn. rewrite ?slice_raw; unfold slice0. rewrite nth_error_firstn, nth_error_skipn.
   destruct (Nat.ltb_spec i (Z.to_nat n)); destruct (Z.ltb_spec (Z.of_nat i) n); auto; lia.
 Qed.
 
 Lemma length_slice l off n :
   length (slice l off n) = Nat.min (Z.to_nat n) (length l - Z.to_nat off).
-Proof. unfold slice. now rewrite firstn_length, skipn_length. Qed.
+Proof. rewrite ?slice_raw; unfold slice0. now rewrite firstn_length, skipn_length. Qed.
 
 Lemma len_slice l off n :
   0 <= off -> 0 <= n -> len (slice l off n) = Z.min n (Z.max 0 (len l - off)).
 Proof. intros. unfold len. rewrite length_slice. lia. Qed.
 
 Lemma len_drop l off : 0 <= off -> len (drop l off) = Z.max 0 (len l - off).
-Proof. intros. unfold len, drop. rewrite skipn_length. lia. Qed.
+Proof. intros. unfold len; rewrite ?drop_raw; unfold drop0. rewrite skipn_length. lia. Qed.
 
 Lemma len_take l n : 0 <= n -> len (take l n) = Z.min n (len l).
-Proof. intros. unfold len, take. rewrite firstn_length. lia. Qed.
+Proof. intros. unfold len; rewrite ?take_raw; unfold take0. rewrite firstn_length. lia. Qed.
 
 Lemma slice_all l : slice l 0 (len l) = l.
-Proof. unfold slice, len. simpl. rewrite Nat2Z.id. apply firstn_all. Qed.
+Proof. unfold len; rewrite ?slice_raw; unfold slice0. simpl. rewrite Nat2Z.id. apply firstn_all. Qed.
 
 Lemma slice_ge l off n : len l - off <= n -> slice l off n = drop l off.
 Proof.
-  intros H. unfold slice, drop. apply firstn_all2. rewrite skipn_length. unfold len in H. lia.
+  intros H. rewrite ?slice_raw, ?drop_raw; unfold slice0, drop0. apply firstn_all2. rewrite skipn_length. unfold len in H. lia.
 Qed.
 
 Lemma slice_0 l off : slice l off 0 = [].
-Proof. reflexivity. Qed.
+Proof. rewrite slice_raw. reflexivity. Qed.
 
 Lemma slice_nil l off n : n <= 0 -> slice l off n = [].
-Proof. intros. unfold slice. replace (Z.to_nat n) with 0%nat by lia. reflexivity. Qed.
+Proof. intros. rewrite ?slice_raw; unfold slice0. replace (Z.to_nat n) with 0%nat by lia. reflexivity. Qed.
 
 Lemma slice_slice l a n b m :
   0 <= a -> 0 <= n -> 0 <= b -> 0 <= m ->
@@ -131,7 +160,7 @@ Lemma slice_app_split l off n m :
   0 <= off -> 0 <= n -> 0 <= m ->
   slice l off (n + m) = slice l off n ++ slice l (off + n) m.
 Proof.
-  intros. unfold slice.
+  intros. rewrite ?slice_raw; unfold slice0.
   rewrite !Z2Nat.inj_add by lia.
   rewrite firstn_add_split. f_equal. now rewrite skipn_add.
 Qed.
@@ -155,14 +184,17 @@ Proof.
   f_equal; lia.
 Qed.
 
+Lemma take_0 l : take l 0 = [].
+Proof. rewrite take_raw. reflexivity. Qed.
+
 Lemma drop_0 l : drop l 0 = l.
-Proof. reflexivity. Qed.
+Proof. rewrite drop_raw. reflexivity. Qed.
 
 Lemma drop_ge l off : len l <= off -> drop l off = [].
-Proof. intros. unfold drop. apply skipn_all2. unfold len in *; lia. Qed.
+Proof. intros. rewrite ?drop_raw; unfold drop0. apply skipn_all2. unfold len in *; lia. Qed.
 
 Lemma take_drop l n : take l n ++ drop l n = l.
-Proof. apply firstn_skipn. Qed.
+Proof. rewrite take_raw, drop_raw. apply firstn_skipn. Qed.
 
 (* overlay: write d into l at offset off (0 <= off), zero-filling with [z] past the end *)
 Definition overlay (z : A) l (off : Z) (d : list A) : list A :=
@@ -231,7 +263,7 @@ Proof.
 Qed.
 
 Lemma bytes_ok_slice l off n : bytes_ok l -> bytes_ok (slice l off n).
-Proof. intros. unfold slice. now apply bytes_ok_firstn, bytes_ok_skipn. Qed.
+Proof. intros. rewrite ?slice_raw; unfold slice0. now apply bytes_ok_firstn, bytes_ok_skipn. Qed.
 
 Lemma bytes_ok_repeat b n : byte_ok b -> bytes_ok (repeat b n).
 Proof. intros. unfold bytes_ok. apply Forall_forall. intros x Hx. apply repeat_spec in Hx. now subst. Qed.
